@@ -346,6 +346,13 @@ class Result:
         self.obligations.append({"name": name, "ok": bool(ok), "kind": kind, "detail": detail})
 
 
+def clear_replays(pid):
+    if os.path.isdir(REPLAY):
+        for fn in os.listdir(REPLAY):
+            if fn.startswith(pid + "-"):
+                os.remove(os.path.join(REPLAY, fn))
+
+
 def write_replay(pid, n, payload):
     os.makedirs(REPLAY, exist_ok=True)
     p = os.path.join(REPLAY, "%s-%s.json" % (pid, n))
@@ -450,6 +457,7 @@ def generic_check(mod, tier, seed):
     res = Result(mod.ID, tier, seed)
     known = load_known()
     rng = random.Random(seed * 1000003 + hash_id(mod.ID))
+    clear_replays(mod.ID)
 
     with Lock():
         ok, out, _ = regenerate()
